@@ -83,7 +83,7 @@ try:
   _LOCALE_IS_UNICODE = '\xe9\u2603\U0001f600'.encode(locale.getpreferredencoding(False)) is not None
 except (UnicodeError, LookupError):
   _LOCALE_IS_UNICODE = False  # open() cannot read such a file back: non-ASCII texts go through the binary file object instead
-REQUIRED_BUCKETS = (['entry:' + e for e in ENTRIES] + ['entry:parse_value-near', 'parse_value-near:must-reject', 'parse_value-near:prefix-exempt'] +
+REQUIRED_BUCKETS = (['entry:' + e for e in ENTRIES] + ['history:earlier-equal-value-of-another-type', 'entry:parse_value-near', 'parse_value-near:must-reject', 'parse_value-near:prefix-exempt'] +
                     ['class:in', 'class:near', 'class:invalid', 'class:grey'] +
                     ['near-op:' + o for o in gen.NEAR_OPS + EXTRA_NEAR_OPS] +
                     ['must-reject:' + o for o in EXTRA_NEAR_OPS + ['embed-deep', 'embed-dict-key']] +
@@ -442,6 +442,26 @@ def _write(name, data, mode, **kw):
   return path
 
 
+def _confuse(v):
+  """(changed?, a value comparing equal to v in which numbers have another type)."""
+  t = type(v)
+  if t is bool:
+    return True, int(v)
+  if t is int:
+    if v in (0, 1):
+      return True, bool(v)
+    return (True, float(v)) if abs(v) < 2 ** 52 else (False, v)
+  if t is float:
+    return (True, int(v)) if v == v and abs(v) < 2 ** 52 and v.is_integer() else (False, v)
+  if t in (list, tuple):
+    items = [_confuse(x) for x in v]
+    return any(c for c, _ in items), t(x for _, x in items)
+  if t is dict:
+    items = [(k, _confuse(x)) for k, x in v.items()]
+    return any(c for _, (c, _) in items), {k: x for k, (_, x) in items}
+  return False, v
+
+
 def _drive(case, entry, text):
   import gin
   from gin import config as gc
@@ -550,6 +570,16 @@ def run_case(ctx, case):
     has_expected = False
 
   gin.clear_config()
+  if cls == 'in' and has_expected and entry not in ('parse_value', 'parse_value-near') and ctx.case_no % 4 == 1:
+    # the parameter may hold an earlier value: one that COMPARES EQUAL to the literal's but is of another type (1 / True / 1.0) - the literal
+    # is stored all the same
+    changed, earlier = _confuse(expected)
+    if changed:
+      try:
+        gin.bind_parameter(_statement(case.get('form') or entry, text)[1], earlier)
+        ctx.bucket('history:earlier-equal-value-of-another-type')
+      except Exception:  # pylint: disable=broad-except
+        gin.clear_config()
   exc, got, others = None, None, {}
   try:
     got, others = _drive(case, entry, text)
